@@ -619,7 +619,9 @@ def digest_coverage(ck, prog):
         rets = [b for b, blk in enumerate(f.blocks) if blk["t"]["k"] == "return"]
         hashed = False
         for b in rets:
-            sl = g.walk(ops=[{"copy": {"l": 0}}], at=(b, T), deep=deep)
+            # content flow only: a field whose LENGTH alone reaches the hashed buffer (a capacity computed from `len()`) is not covered
+            sl = g.walk(ops=[{"copy": {"l": 0}}], at=(b, T), deep=deep,
+                        through=lambda tt: not (callee_name(tt) or "").endswith(("::len", "::is_empty", "::capacity", "::count")))
             covered |= {fl for (a, fl) in g.fields_in(sl) if a == adt}
             names = g.callee_names_in(sl) | {n[1] for n in sl if n[0] == "cn"}
             hashed = hashed or any(n.endswith("ElementHasher::hash_elements") for n in names)
@@ -698,10 +700,110 @@ def seed_field_coverage(ck, prog):
                 ck.ob("E3.seed", f"seed-length:{adt.split('::')[-1]}.{fld}", has_len,
                       f"{adt.split('::')[-1]}::to_elements encodes the LENGTH of the variable-length field `{fld}` that it cuts into zero-padded chunks "
                       "(without it, values differing only in trailing zero bytes seed the coin identically)", loc=f.loc(b, T))
+        _manual_chunks(ck, prog, f, adt)
         for fld in fields:
             ck.ob("E3.seed", f"seed-field:{adt.split('::')[-1]}.{fld}", fld in read,
                   f"{adt.split('::')[-1]}::to_elements encodes field `{fld}` into the coin seed "
                   "(what is not in the seed is not bound to the proof)", loc=f.loc())
+
+
+def _manual_chunks(ck, prog, f, adt):
+    """A to_elements that cuts a byte field by hand — `for i in 0..N { push(from_bytes(&field[start(i)..end(i)])) }` — covers the whole
+    field only if the slices [start(i), end(i)), i < N, tile [0, len): N, start and end are extracted as expressions over the field's
+    length L, the element size and the loop variable, and the tiling is evaluated for every L up to four elements' worth of bytes and
+    every element size of the workspace (8, 16, 24, 32). A field tail that no slice reaches is not in the coin seed."""
+    from .exempt import expr_at, strip_conv
+
+    def ev(e, env):
+        e = strip_conv(e)
+        if e[0] == "k":
+            if isinstance(e[1], int):
+                return e[1]
+            return env["EB"] if str(e[1]).endswith("::ELEMENT_BYTES") else None
+        if e[0] == "field" and len(e) == 3 and isinstance(e[2], tuple) and e[2][0] == "call" and e[2][1].endswith("Iterator::next"):
+            return env.get("i")
+        if e[0] == "op":
+            a, b = ev(e[2], env), ev(e[3], env)
+            if a is None or b is None:
+                return None
+            try:
+                return {"Add": a + b, "Sub": a - b, "Mul": a * b, "Div": a // b if b else None, "Rem": a % b if b else None}.get(e[1])
+            except Exception:
+                return None
+        if e[0] == "call":
+            name = e[1].split("::")[-1]
+            if name == "len" and len(e[2]) == 1:
+                base = strip_conv(e[2][0])
+                return env["L"] if base == env["field"] else None
+            if len(e[2]) == 2 and name in ("min", "max", "div_ceil", "saturating_sub"):
+                a, b = ev(e[2][0], env), ev(e[2][1], env)
+                if a is None or b is None:
+                    return None
+                return {"min": min(a, b), "max": max(a, b), "div_ceil": -(-a // b) if b else None, "saturating_sub": max(a - b, 0)}[name]
+        return None
+
+    for b, t in f.calls():
+        if not (callee_name(t) or "").endswith(("Index::index",)) or len(t["args"]) != 2:
+            continue
+        base = strip_conv(expr_at(f, t["args"][0]))
+        rng = strip_conv(expr_at(f, t["args"][1]))
+        if not (base[0] == "field" and base[2] == ("p", 1) and rng[0] == "agg" and str(rng[1]).endswith("range::Range") and len(rng[2]) == 2):
+            continue
+        start, end = rng[2]
+
+        def find_next(e):
+            if isinstance(e, tuple):
+                if e[0] == "call" and e[1].endswith("Iterator::next"):
+                    return e
+                for x in e[1:]:
+                    if isinstance(x, tuple):
+                        r = find_next(x)
+                        if r:
+                            return r
+            return None
+        nx = find_next(start) or find_next(end)
+        if nx is None:
+            continue
+        it = strip_conv(nx[2][0])
+        while it[0] == "call" and it[1].endswith("IntoIterator::into_iter") and it[2]:
+            it = strip_conv(it[2][0])
+        if not (it[0] == "agg" and str(it[1]).endswith("range::Range") and len(it[2]) == 2):
+            ck.note("E3.seed: a hand-written chunk loop over something other than a plain range; its coverage is not decided")
+            continue
+        names = [x if isinstance(x, str) else x.get("name") for x in prog.adt_fields(adt)]
+        fname = names[base[1]] if isinstance(base[1], int) and base[1] < len(names) else str(base[1])
+        bad, undecided = None, False
+        for EB in (8, 16, 24, 32):
+            for L in range(0, 4 * EB + 4):
+                env = {"EB": EB, "L": L, "field": base}
+                lo, n = ev(it[2][0], env), ev(it[2][1], env)
+                if lo is None or n is None:
+                    undecided = True
+                    break
+                cur = 0
+                for i in range(lo, n):
+                    env["i"] = i
+                    a, z = ev(start, env), ev(end, env)
+                    if a is None or z is None:
+                        undecided = True
+                        break
+                    if a > cur:
+                        break
+                    cur = max(cur, z)
+                if undecided:
+                    break
+                if cur < L and bad is None:
+                    bad = (L, EB, cur)
+            if undecided:
+                break
+        if undecided:
+            ck.note(f"E3.seed: the hand-written chunk loop over `{fname}` has bounds the rule cannot evaluate; its coverage is not decided")
+            continue
+        ck.ob("E3.seed", f"seed-whole:{adt.split('::')[-1]}.{fname}:chunk-loop", bad is None,
+              f"{adt.split('::')[-1]}::to_elements: the hand-written chunk loop over `{fname}` reaches every byte of the field "
+              "(evaluated for every length up to four elements and every element size)", loc=f.loc(b, T),
+              detail=None if bad is None else f"a {bad[0]}-byte `{fname}` with {bad[1]}-byte elements: only the first {bad[2]} bytes are encoded; "
+                                              "the rest does not reach the coin seed")
 
 
 def _rv_places(rv):
